@@ -74,7 +74,9 @@ void BitSequenceRRR::build(const uint *bitseq, size_t len, uint sample_rate) {
   }
 
   // Table O
-  O_len = uint_len(1, O_bits_len);
+  // (at least one word: when no block needs offset bits the loop below still
+  // touches O[0])
+  O_len = max((uint)1, uint_len(1, O_bits_len));
   O = new uint[O_len];
   for (uint i = 0; i < O_len; i++)
     O[i] = 0;
